@@ -1,7 +1,7 @@
 // C13 / C14 K-death: histories over one deathwatched object and up to two destruction requirements, as straight-line shapes.
 // VF_O1..VF_O5: op codes (0 = none)
 //   1 = create requirement #0     2 = create requirement #1     3 = release #0     4 = release #1
-//   5 = destroy the object        6 = copy-construct a temp from it (temp dies at once)
+//   5 = destroy the object        6 = copy-construct temps from it, once through a non-const and once through a const reference (each dies at once)
 //   7 = move-construct a temp from it    8 = assign a temp TO it    9 = assign it to a temp
 // Reference: 4-state model of the C13 statement.  Pointer checks on (C14: nothing touches freed memory).
 #include "vfapi.h"
@@ -81,8 +81,10 @@ static void op(int o)
     break;
   case 6:
     if (!alive) return;
-    { DW tmp(*obj); VCLAIM(13, tmp.v == obj->v, "C13.copy_copies_value"); }
+    { DW tmp(*obj); VCLAIM(13, tmp.v == obj->v, "C13.copy_copies_value"); }                     // non-const lvalue: forwarding constructor
     ++want_reports;                                     // the copy has no requirement of its own
+    { DW tmp(static_cast<DW const &>(*obj)); VCLAIM(13, tmp.v == obj->v, "C13.const_copy_copies_value"); }   // const&: the copy constructor proper
+    ++want_reports;
     break;
   case 7:
     if (!alive) return;
